@@ -6,14 +6,16 @@ base = os.path.join(os.path.dirname(os.path.abspath(__file__)), "lean", "PestTyp
 old = json.load(open("props_index.json")) if os.path.exists("props_index.json") else {}
 idx = {}
 for f in sorted(os.listdir(base)):
-    m = re.match(r"(C\d\d)\.lean$", f)
+    m = re.match(r"(C\d\d)([A-Za-z]*)\.lean$", f)
     if not m:
         continue
     pid = m.group(1)
     src = open(os.path.join(base, f)).read()
     src = re.sub(r"/-.*?-/", "", src, flags=re.S)
     names = re.findall(r"^theorem\s+(" + pid + r"_[A-Za-z0-9_']+)", src, flags=re.M)
-    idx[pid] = {"modules": [f"PestTyped.Props.{pid}"], "theorems": [f"PestTyped.{n}" for n in names]}
+    e = idx.setdefault(pid, {"modules": [], "theorems": []})
+    e["modules"].append("PestTyped.Props." + f[:-5])
+    e["theorems"] += [f"PestTyped.{n}" for n in names]
 for pid, v in old.items():
     if pid not in idx:
         idx[pid] = v
